@@ -447,6 +447,11 @@ def fam_spin_core(tier="quick"):
                                                       ["st 0 1 rlx ; st 2 1 rlx ; st 1 1 rlx", "st 0 1 rel ; st 1 1 rel"]], 1)
         L += exhaustive(f"sp2{o}b", ["A0", "A0", "A0"], [["st 0 1 rlx ; st 2 1 rlx ; st 1 1 rlx"],
                                                        [f"aw 0 1 {o} ; aw 1 1 {o} ; ld 2 rlx"]], 1)
+    # the setter goes on after establishing the condition and races with the spinner's continuation:
+    # the spinner must also be scheduled immediately after the store it waited for (RMWs make the order visible)
+    for o_st, o_ld in (("rel", "acq"), ("rlx", "rlx"), ("sc", "sc")):
+        L += exhaustive(f"spW{o_st}", ["A0", "A0"], [[f"aw 0 1 {o_ld} ; rmw 1 add 10 rlx"], [f"st 0 1 {o_st} ; rmw 1 add 1 rlx", f"rmw 1 add 1 rlx ; st 0 1 {o_st} ; rmw 1 add 2 rlx"]], 1)
+        L += exhaustive(f"spV{o_st}", ["A0", "A0"], [[f"st 0 1 {o_st} ; rmw 1 add 1 rlx"], [f"aw 0 1 {o_ld} ; rmw 1 add 10 rlx"]], 1)
     # a third thread that only reads
     L += exhaustive("sp3", ["A0", "A0"], [["aw 0 1 acq ; ld 1 rlx"], ["st 1 7 rlx ; st 0 1 rel"], ["ld 0 rlx", "ld 1 rlx"]], 1)
     # a loop whose condition can never hold: branch limit, small max_branches to keep it short
@@ -793,6 +798,13 @@ def fam_race_core(tier="quick"):
     for o1 in [("rel", "acq"), ("rlx", "acq"), ("rel", "rlx"), ("sc", "sc")]:
         for o2 in [("rel", "acq"), ("rlx", "rlx")]:
             add("H2", ["U", "A0", "A0"], [["cw 0", f"st 1 1 {o1[0]}"], [f"aw 1 1 {o1[1]}", f"st 2 1 {o2[0]}"], [f"aw 2 1 {o2[1]}", "cr 0"]])
+    # two hops where ONE fence of the relay thread plays both roles: it acquires what the relaxed load
+    # before it read, and releases it through the relaxed store after it (only ar / sc do both)
+    for f in ["ar", "sc", "acq", "rel"]:
+        add("H2f", ["U", "A0", "A0"], [["cw 0", "st 1 1 rel"], ["aw 1 1 rlx", f"fn {f}", "st 2 1 rlx"], ["aw 2 1 acq", "cr 0"]])
+    add("H2f", ["U", "A0", "A0"], [["cw 0", "st 1 1 rel"], ["aw 1 1 rlx", "fn ar", "rmw 2 add 1 rlx"], ["aw 2 1 rlx", "fn acq", "cr 0"]])
+    add("H2f", ["U", "A0", "A0"], [["cw 0", "fn rel", "st 1 1 rlx"], ["aw 1 1 rlx", "fn sc", "st 2 1 rlx"], ["aw 2 1 rlx", "fn sc", "cr 0"]])
+    add("H2u", ["A0", "A0", "A0"], [["wm 0 9", "st 1 1 rel"], ["aw 1 1 rlx", "fn ar", "st 2 1 rlx"], ["aw 2 1 acq", "usl 0"]])
     # locks
     add("Mx", ["U", "M"], [["lk 1", "cw 0", "ul 1"], ["lk 1", "cr 0", "ul 1"]])
     add("Mx", ["U", "M"], [["lk 1", "cw 0", "ul 1"], ["lk 1", "cw 0", "ul 1"], ["lk 1", "cr 0", "ul 1"]])
